@@ -785,12 +785,12 @@ Section Complete.
         apply F. apply -> in_rev. exact X.
   Qed.
 
-  Lemma missing_go_same : forall q max count s ns cs,
-    same6 s (fst (fst (missing_go q max count s ns cs))).
+  Lemma missing_go_same mfd : forall q max count s ns cs,
+    same6 s (fst (fst (missing_go mfd q max count s ns cs))).
   Proof.
     induction q as [|[p it] rest IH]; intros max count s ns cs; cbn [missing_go]; [repeat split|].
     destruct (negb (max =? 0) && negb (count <? max)); [repeat split|].
-    destruct (Z.ltb max_fetches_per_depth (fget (prio_depth p) (fetches s))); [repeat split|].
+    destruct (Z.ltb mfd (fget (prio_depth p) (fetches s))); [repeat split|].
     set (s1 := set_fetches s _).
     assert (S1 : same6 s s1) by (repeat split).
     assert (Tr : forall x, same6 s1 x -> same6 s x).
@@ -838,7 +838,7 @@ Section Complete.
   Lemma Inv_step2 s o : op2_wf s o -> Inv s -> Inv (step2 s o).
   Proof.
     intros W (I & SL & RT). destruct o as [k|p h b]; simpl.
-    - pose proof (missing_go_same (queue s) k 0 s [] []) as Sm. unfold Inv, missing.
+    - pose proof (missing_go_same max_fetches_per_depth (queue s) k 0 s [] []) as Sm. unfold Inv, missing, missing_b.
       split; [eapply inv_same; eauto|split; [eapply slack_same; eauto|eapply reqT_same; eauto]].
     - simpl in W. destruct W as (W1 & W2 & W3). unfold deliver_node in *.
       destruct (beq (H b) h) eqn:E; [|cbn [fst]; split; [exact I|split; [exact SL|exact RT]]].
